@@ -456,8 +456,12 @@ def expected_tables(s, cfg):
     # revenue & cash flow: prices are shown in the preferred unit (cents/kWh) of the price outputs
     def price(p):
         v = _a(p.value)
-        if p.CurrentUnits != p.PreferredUnits:
-            v = np.asarray([U.convert(float(x), p.CurrentUnits, p.PreferredUnits) for x in v])
+        target = s.input_values.get('Units:' + p.Name)            # an output-unit directive names the unit to show
+        target = target.strip() if isinstance(target, str) and target.strip() else None
+        if target is None and p.CurrentUnits != p.PreferredUnits:
+            target = p.PreferredUnits
+        if target is not None and target != p.CurrentUnits:
+            v = np.asarray([U.convert(float(x), p.CurrentUnits, target) for x in v])
         return v
     n = cy + L
     if all(len(_a(getattr(ec, a).value)) == n for a in ('ElecPrice', 'HeatPrice', 'CoolingPrice', 'CarbonPrice', 'TotalRevenue')):
@@ -476,7 +480,16 @@ def expected_tables(s, cfg):
         ae = s.addeconomics
         if float(ae.AddOnCAPEXTotal.value) + float(ae.AddOnOPEXTotalPerYear.value) != 0:
             # one row per simulated (and construction) year, in order: construction years then operating years
-            ep, hp_ = _a(ec.ElecPrice.value), _a(ec.HeatPrice.value)
+            # this table prints the price objects as they stand: raw (USD/kWh) unless an output-unit directive converted them
+
+            def price_as_it_stands(p):
+                target = s.input_values.get('Units:' + p.Name)
+                target = target.strip() if isinstance(target, str) and target.strip() else None
+                v = _a(p.value)
+                if target is not None and target != p.CurrentUnits:
+                    v = np.asarray([U.convert(float(x), p.CurrentUnits, target) for x in v])
+                return v
+            ep, hp_ = price_as_it_stands(ec.ElecPrice), price_as_it_stands(ec.HeatPrice)
             aer, ahr, ar = _a(ae.AddOnElecRevenue.value), _a(ae.AddOnHeatRevenue.value), _a(ae.AddOnRevenue.value)
             acf, acc = _a(ae.AddOnCashFlow.value), _a(ae.AddOnCummCashFlow.value)
             pcf, pcc = _a(ae.ProjectCashFlow.value), _a(ae.ProjectCummCashFlow.value)
